@@ -569,6 +569,11 @@ TABLE = [
     ("v2_key_given", "v2::convert::write::key", ("if", 0), [("key", B, "key")]),
     ("v2_hot_cue_none", "v2::convert::write::hot_cue", ("if", 0), [("hot_cue", B, "hot_cue")]),
     ("v2_loop_none", "v2::convert::write::loop", ("if", 0), [("loop", B, "loop")]),
+    # ---- track_utils.hpp (shared by both generations): "no extents" test before the divisions by qn
+    ("util_hires_zero", "util::calculate_high_resolution_waveform_extents", ("if", 0),
+     [("sample_count", "Nat", "?sample_count"), ("qn", "Int", "?qn"), ("sample_rate", "F64.Bits", "?sample_rate")]),
+    ("util_ovw_zero", "util::calculate_overview_waveform_extents", ("if", 0),
+     [("sample_count", "Nat", "?sample_count"), ("qn", "Int", "?qn"), ("sample_rate", "F64.Bits", "?sample_rate")]),
     # ---- tracks 1.x
     ("v1_track_hot_cue_at_range", "v1::engine_track_impl::hot_cue_at", ("if", 0),
      [("index", "Int", "index"), ("size", "Nat", "quick_cues_d.hot_cues.size()")]),
@@ -605,8 +610,9 @@ DOC = {}
 
 
 def atoms_of(ast, params):
-    """translate a condition; params: {cxx text: (lean, type)}"""
-    by_text = {t: (l, ty) for l, ty, t in params}
+    """translate a condition; params: {cxx text: (lean, type)}; an atom text starting with `?` is optional
+    (the condition need not mention it)"""
+    by_text = {t.lstrip("?"): (l, ty) for l, ty, t in params}
 
     CASTS = ("ImplicitCastExpr", "CStyleCastExpr", "CXXStaticCastExpr", "CXXFunctionalCastExpr")
 
@@ -641,12 +647,44 @@ def atoms_of(ast, params):
             if op in ("<", "<=", ">", ">=", "==", "!="):
                 lt = (inner[0].get("type") or "")
                 if "double" in lt or "float" in lt:
-                    raise Unsupported("floating comparison `%s` is not a declared atom" % t)
+                    a, b = tr_f64(inner[0]), tr_f64(inner[1])
+                    return {"<": "(F64.lt %s %s)" % (a, b), "<=": "(F64.le %s %s)" % (a, b),
+                            ">": "(F64.lt %s %s)" % (b, a), ">=": "(F64.le %s %s)" % (b, a),
+                            "==": "(F64.eq %s %s)" % (a, b), "!=": "(F64.ne %s %s)" % (a, b)}[op]
                 lean = {"<": "<", "<=": "≤", ">": ">", ">=": "≥", "==": "=", "!=": "≠"}[op]
                 return "(decide (%s %s %s))" % (tr_int(inner[0]), lean, tr_int(inner[1]))
         if k == "DeclRefExpr" and t in by_text:
             return by_text[t][0]
         raise Unsupported("condition `%s` (%s)" % (t, k))
+
+    F64_LIT = {0.0: "F64.zero", 1.0: "F64.one", 9223372036854775808.0: "(0x43e0000000000000 : F64.Bits)",
+               -9223372036854775808.0: "(0xc3e0000000000000 : F64.Bits)"}
+
+    def tr_f64(n):
+        """a double: a declared F64 atom or one of the literals 0, 1, ±2^63 (bit patterns)"""
+        t = n.get("text", "")
+        k = n.get("kind")
+        inner = n.get("inner", [])
+        if k not in CASTS and t in by_text and by_text[t][1] == "F64.Bits":
+            return by_text[t][0]
+        if k in ("ParenExpr", "ExprWithCleanups", "MaterializeTemporaryExpr"):
+            return tr_f64(inner[0])
+        if k in ("FloatingLiteral", "IntegerLiteral"):
+            try:
+                v = float(n.get("value"))
+            except (TypeError, ValueError):
+                raise Unsupported("literal `%s`" % t)
+            if v in F64_LIT:
+                return F64_LIT[v]
+            raise Unsupported("floating literal `%s`" % t)
+        if k == "UnaryOperator" and n.get("opcode") == "-" and inner and inner[0].get("kind") in ("FloatingLiteral", "IntegerLiteral"):
+            v = -float(inner[0].get("value"))
+            if v in F64_LIT:
+                return F64_LIT[v]
+            raise Unsupported("floating literal `%s`" % t)
+        if k in CASTS and n.get("castKind") in ("NoOp", "LValueToRValue", "IntegralToFloating"):
+            return tr_f64(inner[0])
+        raise Unsupported("floating expression `%s` (%s)" % (t, k))
 
     def wrap(t, e):
         t = (t or "").replace("const ", "").strip()
@@ -703,16 +741,18 @@ def mentions_only(ast, params):
 def translate(conds):
     """-> (lean text, status dict)"""
     out = ["/- GENERATED by tools/tr_c15guards.py from src/djinterop/engine/{v1,v2}/*.cpp, *.hpp — do not edit. -/",
-           "namespace EngineModel.Gen.C15Guards", ""]
+           "import EngineModel.Basic.F64", "", "namespace EngineModel.Gen.C15Guards", "open EngineModel", ""]
     status = {}
     used = {}
     for name, fn, (kind, nth), params in TABLE:
+        need = {l for l, _, t in params if not t.startswith("?")}
         cs = [c for c in conds.get(fn, []) if c["kind"] == kind and mentions_only(c["ast"], params) and
-              set(uses(c["ast"], params)) == {l for l, _, _ in params}]
+              need <= set(uses(c["ast"], params))]
         # conditions already taken by an earlier entry with the same function / kind / atoms are skipped
         sig = (fn, kind, tuple(sorted(l for l, _, _ in params)))
         k = used.get(sig, 0) + nth
         sigdecl = " ".join("(%s : %s)" % (l, ty) for l, ty, _ in params)
+        params = [(l, ty, t.lstrip("?")) for l, ty, t in params]
         if k < len(cs):
             c = cs[k]
             used[sig] = used.get(sig, 0) + 1
